@@ -103,8 +103,18 @@ def _url_helper(ctx, rule, name, ref, rets, site, final_call, n):
             t3 = F.simplify(parg, {"infer_redirection": False})
             ctx.ob(rule, name + "/no-resolve-when-off", not F.find_nodes(t3, F.is_call(NM.REDIRECT)), "%s(infer_redirection=False) still resolves redirections" % name, site)
     # ValueError -> None
-    exc = [r for r in rets if r.kind == "return" and any(c[0] == "raises" for c, pol in r.conds)]
-    ctx.ob(rule, name + "/unparseable-gives-None", bool(exc) and all(r.term == ("const", None) for r in exc), "%s does not return None for an unparseable url" % name, site, witness="http://[::1/x")
+    # decided by interpreting the function on the unparseable url; the shape of the return paths only when that is out of reach
+    from ..microeval import Raised
+    try:
+        got = run_function(ctx.repo, ref, ["http://[::1/x"], {"infer_redirection": False})
+        ok = got is None
+        msg = "%s('http://[::1/x') gives %r, not None" % (name, got)
+    except Raised as e:
+        ok, msg = False, "%s raises %s on an unparseable url instead of returning None" % (name, e.name)
+    except Unknown:
+        exc = [r for r in rets if r.kind == "return" and any(c[0] == "raises" for c, pol in r.conds)]
+        ok, msg = bool(exc) and all(r.term == ("const", None) for r in exc), "%s does not return None for an unparseable url" % name
+    ctx.ob(rule, name + "/unparseable-gives-None", ok, msg, site, witness="http://[::1/x")
 
 
 def fingerprint_helpers(ctx, rule):
